@@ -3,19 +3,25 @@
 spec  : Periodicity.tla (EXTENDS Bands) -
         part A  exact Bloch sums H(k) = sum_R H(R) e^{2 pi i k.R} over Gaussian-integer models on the mesh k = kn/4, at k and at
                 k + G (MC_PeriodicityHk: every model within the constants x every k; Periodic, Hermitian);
-        part B  Data_K.degen (blocks the random gauge may mix) as DegenRG over Bands.Borders; MC_GaugeBlocks: the blocks are exactly
+        part B  the blocks the random gauge may mix (Data_K.degen) as DegenRG over Bands.Borders; MC_GaugeBlocks: the blocks are exactly
                 the degenerate multiplets, lie inside the blocks over which calculators trace when
                 degen_thresh_random_gauge <= degen_thresh (GaugeWithinTrace), and are never cut by the Fermi-sea block.
-bind  : exact - TLC states replayed on real System_R / Data_K_R objects: HH_K at kn/4 + G against the exact matrix (1e-12),
-        Data_K.degen against DegenRG, Data_K.UU_K mixing pattern; records of the same functions on larger random inputs are
-        validated by TLC (PeriodicityRec.tla).
+                Energies are integers x 1/8 and the thresholds (th + 1/2) x 1/8: no gap ever EQUALS a threshold, so the model does
+                not depend on `>` versus `>=` in the implementation.
+bind  : exact - TLC states replayed on real System_R / Data_K objects: the Wannier-gauge H(k) at kn/4 + G of a system whose Wannier
+        centres are all zero (so that the comparison does not depend on the Fourier convention) against the exact matrix (1e-12), the
+        spectrum of the same model with random centres against the spectrum of the exact matrix, the mixing pattern of the random
+        gauge (pairs of bands actually mixed, unitarity; Data_K.degen as a set of blocks when that private attribute exists), also
+        on a two-point FFT grid; records of the same functions on larger random inputs are validated by TLC (PeriodicityRec.tla).
 num   : evaluate_k at k and k + G (|G_i| <= 2) for energies, band gradients, Berry curvature (total / internal / external),
-        spin, orbital moment (with external-term matrices) at non-degenerate k; evaluate_k / formula traces / run() with
-        parameters_K={'random_gauge': True} against False on models with exact two-fold degeneracies (tolerance 1e-8 x scale).
+        spin, orbital moment (with external-term matrices) at non-degenerate k, also for a SystemSOC and on a 2x2x1 FFT grid
+        (tabulators / integrators called on Data_K objects shifted by G); evaluate_k / formula traces / run() with
+        parameters_K={'random_gauge': True} against False on models with exact two-fold and three-fold degeneracies and with a
+        near-degeneracy below the threshold (tolerance 1e-8 x scale), with evidence that the rotation was applied (unitary draws counted).
 """
 import copy
+import os
 import random
-from functools import cached_property
 import numpy as np
 
 from .. import tlc, ftable
@@ -23,22 +29,45 @@ from ..common import Report, MachineryError, seed, quiet, workdir
 
 PROPS = {
     "C04": dict(level="exploration",
-                technique="TLC exhaustive on Periodicity.tla (exact Gaussian-integer Bloch sums at k and k+G; degenerate blocks of the random gauge vs trace blocks of Bands.tla) + replay of TLC states on real System_R/Data_K objects + TLC validation of recorded HH_K / degen / UU_K; numeric k -> k+G and random-gauge comparisons of evaluate_k, formula traces and run()",
+                technique="TLC exhaustive on Periodicity.tla (exact Gaussian-integer Bloch sums at k and k+G; degenerate blocks of the random gauge vs trace blocks of Bands.tla) + replay of TLC states on real System_R/Data_K objects + TLC validation of recorded H(k) / mixing blocks; numeric k -> k+G and random-gauge comparisons of evaluate_k, formula traces, calculators on FFT grids and run()",
                 text="The specification fixes exactly the Bloch Hamiltonian of every small Gaussian-integer model at k and k+G and the set of band blocks that the random gauge may rotate, and "
-                     "proves on the model that those blocks are contained in the blocks over which tabulators and integrators trace; the real Data_K is compared with both (exact). The "
-                     "invariance of derived quantities (velocities, Berry curvature with external terms, spin, orbital moment, all calculator formulas, integrated results) is then checked in "
-                     "floating point between two executions of the implementation.",
-                note="spec decides: H(k+G) = H(k) for the exact Bloch sum (and its value), Data_K.degen = multiplets of the threshold, mixing only inside them, containment in the calculators' "
+                     "proves on the model that those blocks are contained in the blocks over which tabulators and integrators trace; the real Data_K is compared with both (exact; of the "
+                     "enumerated (model, k) states a seeded sample of 350 (quick) / 2500 (thorough) is replayed). The invariance of derived quantities (velocities, Berry curvature with "
+                     "external terms, spin, orbital moment, the catalogued calculator formulas of C08 except the ryoo/qiao spin-current variants, integrated and tabulated results) is then "
+                     "checked in floating point between two executions of the implementation.",
+                note="spec decides: H(k+G) = H(k) for the exact Bloch sum (and its value), the mixing blocks = multiplets of the threshold, mixing only inside them, containment in the calculators' "
                      "trace blocks under GaugeWithinTrace (degen_thresh_random_gauge <= degen_thresh), Fermi-sea block never cuts a multiplet. implementation-vs-implementation numerics: "
-                     "evaluate_k(k) vs evaluate_k(k+G); random_gauge=True vs False for evaluate_k tabulations, traces of every calculator formula over degenerate pairs, and run() integrals "
-                     "/ tabulations, tolerance 1e-8 x scale, on dyadic random models; per-band comparisons only at k-points whose gaps exceed 0.05 (NonDegenerateK). If Data_K raises with "
-                     "random_gauge=True that is reported as a violation and the numeric gauge part continues with a subclass that only aliases the two misspelt attribute names.",
+                     "evaluate_k(k) vs evaluate_k(k+G) (System_R, one SystemSOC), tabulators/integrators on a 2x2x1 FFT Data_K at dK and dK+G; random_gauge=True vs False for evaluate_k "
+                     "tabulations, traces of the calculator formulas over degenerate multiplets (2-fold, 3-fold, and a pair split by 2^-40 < threshold), integrators with the Fermi level inside a "
+                     "multiplet, and run() integrals (incl. tetra=True) / tabulations, tolerance 1e-8 x scale, on dyadic random models; per-band comparisons only at k-points whose gaps exceed "
+                     "0.05 (NonDegenerateK). That the random rotation really happened in evaluate_k / run() is established by counting the draws of scipy.stats.unitary_group (if the package "
+                     "stops using it the count is reported as skipped). ShiftCurrentFormula (abelian generalised derivative: V_nn, A_nn) is gauge invariant only for multiplets without internal connection "
+                     "(spin copies): on the other degenerate systems its deviation is reported in part candidate_finding_not_gauge_covariant, not as a violation (named exclusion ABELIAN_FORMULAS). If evaluate_k raises with random_gauge=True that is a violation and the gauge part stops there. "
+                     "Data_K.HH_K / degen / UU_K are private attributes: used through guarded adapters, sub-checks are skipped (part skipped_private) when they are gone.",
                 ref="DESIGN.md 3.4, 3.5, 5 (row C04), 7 (F2)"),
 }
 
+TAG = f"_p{os.getpid()}"
 UNIT = 0.125
 TOL = 1e-8
 MINGAP = 0.05
+# formulas written in terms of band-diagonal matrix elements (abelian generalised derivative): see numeric_gauge
+ABELIAN_FORMULAS = {"ShiftCurrentFormula"}
+SPLIT = 2.0 ** -40          # splitting of the near-degenerate pairs: far below degen_thresh_random_gauge = 1e-4
+
+
+def lib_raised(ex):
+    from ..main import raised_by_code_under_test
+    return raised_by_code_under_test(ex)
+
+
+def report_raise(rep, skipped, ex, site_key, detail):
+    """an exception of the package on a valid input is a violation; one caused by the harness's own call is a skipped sub-check"""
+    site = lib_raised(ex)
+    if site is None:
+        skipped[site_key] = f"{type(ex).__name__}: {ex}"[:200]
+    else:
+        rep.violation(f"raises:{site_key}:{type(ex).__name__}", dict(detail, raised_in=site, error=f"{type(ex).__name__}: {ex}"[:300]))
 
 
 # ------------------------------------------------------------------------------------------------ real objects
@@ -50,7 +79,7 @@ def sparse_system(nw, lattice, centres, ham):
     return s
 
 
-def model_system(nw, h0, Rs, Ts, rng):
+def model_system(nw, h0, Rs, Ts, centres):
     """h0, Ts: nested lists of complex; Rs: list of (r1, r2)"""
     ham = {(0, 0, 0): np.array(h0, dtype=complex)}
     for R, T in zip(Rs, Ts):
@@ -58,17 +87,39 @@ def model_system(nw, h0, Rs, Ts, rng):
         ham[(R[0], R[1], 0)] = ham.get((R[0], R[1], 0), 0) + T
         ham[(-R[0], -R[1], 0)] = ham.get((-R[0], -R[1], 0), 0) + T.conj().T
     lattice = [[1.0, 0, 0], [0.25, 1.0, 0], [0, 0, 1.5]]
-    centres = [[rng.randrange(8) / 8.0, rng.randrange(8) / 8.0, 0.0] for _ in range(nw)]
     return sparse_system(nw, lattice, centres, ham)
 
 
-def datak(system, k, cls=None, **par):
+def exact_hk(nw, h0, Rs, Ts, k):
+    H = np.array(h0, dtype=complex)
+    for R, T in zip(Rs, Ts):
+        T = np.array(T, dtype=complex)
+        ph = np.exp(2j * np.pi * (k[0] * R[0] + k[1] * R[1]))
+        H = H + T * ph + T.conj().T * np.conj(ph)
+    return H
+
+
+def datak(system, k, cls=None, NKFFT=1, **par):
     import wannierberri as wb
     from wannierberri.data_K import get_data_k_class_from_system
     with quiet():
-        grid = wb.Grid(system=system, NK=1, NKFFT=1)
+        grid = wb.Grid(system=system, NK=NKFFT, NKFFT=NKFFT)
         cls = cls or get_data_k_class_from_system(system)
         return cls(system, grid=grid, dK=np.array(k, dtype=float), **par)
+
+
+def private(obj, name, skipped):
+    """guarded access to a private attribute of Data_K: None (and a note) when it does not exist any more"""
+    try:
+        return getattr(obj, name)
+    except AttributeError as ex:
+        if lib_raised(ex) is not None and name in str(ex):
+            skipped[f"Data_K.{name}"] = f"{ex}"[:200]
+            return None
+        if lib_raised(ex) is not None:
+            raise
+        skipped[f"Data_K.{name}"] = f"{ex}"[:200]
+        return None
 
 
 def cplx(M):
@@ -91,50 +142,34 @@ def to_gauss(M, what, rep, info):
     return out
 
 
-class GaugeAccess:
-    """decides once whether the genuine Data_K supports random_gauge=True; otherwise provides a subclass that only aliases the
-    two attribute names that the genuine properties read (the bodies of Data_K.degen / UU_K are executed unchanged)"""
+class Draws:
+    """counts the draws of scipy.stats.unitary_group (what Data_K uses for the random gauge) while active"""
 
     def __init__(self):
-        self.cls = None
-        self.repaired = False
-        self.error = None
+        self.n = 0
 
-    def get(self, rep, system):
-        if self.cls is not None:
-            return self.cls
-        from wannierberri.data_K.data_K_R import Data_K_R
-        from wannierberri.data_K.data_K import Data_K
-        errors = []
-        d = datak(system, [0.125, 0.25, 0.0], random_gauge=True)
-        for attr in ("degen", "UU_K"):
+    def __enter__(self):
+        import scipy.stats
+        self.ug = scipy.stats.unitary_group
+        self.orig = self.ug.rvs
+
+        def rvs(*a, **k):
+            self.n += 1
+            return self.orig(*a, **k)
+        try:
+            self.ug.rvs = rvs
+            self.patched = True
+        except Exception:  # noqa
+            self.patched = False
+        return self
+
+    def __exit__(self, *a):
+        if self.patched:
             try:
-                getattr(d, attr)
-            except AttributeError as ex:
-                errors.append(f"Data_K.{attr}: {type(ex).__name__}: {ex}")
-        if not errors:
-            self.cls = Data_K_R
-        else:
-            self.error = errors
-            rep.violation("Data_K:random_gauge_raises",
-                          dict(what="Data_K with random_gauge=True (the documented option to test gauge covariance) raises as soon as UU_K / degen is needed",
-                               reproduction="wannierberri.evaluate_k(system, k=(0.125,0.25,0), quantities=['band_gradients'], parameters_K={'random_gauge': True}) for any System_R",
-                               error=self.error,
-                               detail="Data_K.__init__ stores self.degen_threshold_random_gauge but Data_K.degen reads self.degen_thresh_random_gauge; Data_K.UU_K iterates self.true instead of self.degen"))
-
-            class Repaired(Data_K_R):
-                @cached_property
-                def degen(self):
-                    self.degen_thresh_random_gauge = self.degen_threshold_random_gauge
-                    return Data_K.degen.func(self)
-
-                @cached_property
-                def UU_K(self):
-                    self.true = self.degen
-                    return Data_K.UU_K.func(self)
-            self.cls = Repaired
-            self.repaired = True
-        return self.cls
+                del self.ug.rvs
+            except Exception:  # noqa
+                self.ug.rvs = self.orig
+        return False
 
 
 def diag_system(E):
@@ -142,48 +177,76 @@ def diag_system(E):
     return sparse_system(nw, np.eye(3), np.zeros((nw, 3)), {(0, 0, 0): np.diag(np.array(E, dtype=float) * UNIT).astype(complex)})
 
 
-def real_degen(gc, E, th):
-    d = datak(diag_system(E), [0.0, 0.0, 0.0], cls=gc, random_gauge=True, degen_thresh_random_gauge=th * UNIT)
-    if np.abs(d.E_K[0] - np.array(E) * UNIT).max() != 0:
-        raise MachineryError("diagonal model does not reproduce its energies exactly")
-    groups = [[int(a), int(b)] for a, b in d.degen[0]]
-    np.random.seed(seed() + 17)
-    U = d.UU_K[0]
-    mixed = sorted([int(m), int(n)] for m in range(len(E)) for n in range(len(E)) if m != n and abs(U[m, n]) > 1e-12)
-    unit = float(np.abs(U.conj().T @ U - np.eye(len(E))).max())
-    return groups, mixed, unit
+def real_mixing(E, th, skipped, fft=False):
+    """the random gauge on a diagonal model with energies E x UNIT and threshold (th + 1/2) x UNIT:
+    -> dict(groups = set of blocks of Data_K.degen or None, mixed = pairs of bands actually mixed (per k-point), unit, draws)"""
+    nk = 2 if fft else 1
+    with Draws() as dr:
+        d = datak(diag_system(E), [0.0, 0.0, 0.0], NKFFT=[2, 1, 1] if fft else 1, random_gauge=True, degen_thresh_random_gauge=(th + 0.5) * UNIT)
+        if np.abs(d.E_K - np.array(E)[None, :] * UNIT).max() != 0:
+            raise MachineryError("diagonal model does not reproduce its energies exactly")
+        np.random.seed(seed() + 17)
+        U = private(d, "UU_K", skipped)
+        dg = private(d, "degen", skipped)
+    groups = None
+    if dg is not None:
+        try:
+            groups = [sorted({(int(a), int(b)) for a, b in dg[ik] if int(b) - int(a) > 1}) for ik in range(nk)]
+        except Exception as ex:  # noqa   another representation of the blocks
+            skipped["Data_K.degen"] = f"not a list of (begin, end) pairs per k-point: {type(ex).__name__}"
+    mixed = unit = None
+    if U is not None:
+        U = np.asarray(U)
+        mixed = [sorted([int(m), int(n)] for m in range(len(E)) for n in range(len(E)) if m != n and abs(U[ik][m, n]) > 1e-12) for ik in range(nk)]
+        unit = float(max(np.abs(U[ik].conj().T @ U[ik] - np.eye(len(E))).max() for ik in range(nk)))
+    return dict(groups=groups, mixed=mixed, unit=unit, draws=dr.n, counted=dr.patched)
 
 
 # ------------------------------------------------------------------------------------------------ check
 def check(pid, tier):
     rep = Report(pid, tier, "exploration")
+    try:
+        return _check(rep, tier)
+    except Exception:
+        if rep.violations:          # never lose what was already found
+            rep.finish()
+        raise
+
+
+def _check(rep, tier):
     thorough = tier == "thorough"
     rng = random.Random(seed() * 6151 + 4)
     import warnings
     warnings.filterwarnings("ignore")
-    wd = workdir("c04")
+    wd = workdir("c04" + TAG)
+    skipped = {}
     rep.rule("TLC enumerates every two-orbital Gaussian-integer model (bounded number of hoppings) x k on the 4x4 mesh, and every sorted integer energy array x "
-             "thresholds; a case = one TLC state replayed on real System_R/Data_K objects (exact), one seeded random recorded call validated by TLC, or (numeric) one "
-             "(model, k, G, quantity) resp. (model, k, formula, band group) resp. run() comparison; distinct by input")
-    rep.assume("hoppings are Gaussian integers and k = kn/4 in the exact part; energies of the gauge part are integers x 1/8")
+             "thresholds; a case = one TLC state replayed on real System_R/Data_K objects (exact; a seeded sample of the (model, k) states), one seeded random recorded call validated "
+             "by TLC, or (numeric) one (model, k, G, quantity) resp. (model, k, formula, band group) resp. run() comparison; distinct by input")
+    rep.assume("hoppings are Gaussian integers and k = kn/4 in the exact part; energies of the gauge part are integers x 1/8, thresholds (integer + 1/2) x 1/8 (no gap equals a threshold)")
     rep.assume(f"numeric per-band comparisons only at k-points with all gaps > {MINGAP} (NonDegenerateK); gauge comparisons require degen_thresh_random_gauge <= degen_thresh (GaugeWithinTrace)")
-    recs = part_hk(rep, rng, thorough)
-    gauge = GaugeAccess()
-    part_gauge_blocks(rep, rng, thorough, gauge, recs)
-    numeric_periodic(rep, rng, thorough)
-    numeric_gauge(rep, rng, thorough, gauge, wd)
-    import shutil
-    shutil.rmtree(wd, ignore_errors=True)
+    try:
+        recs = part_hk(rep, rng, thorough, skipped)
+        usable = gauge_usable(rep, skipped)
+        state = part_gauge_blocks(rep, rng, thorough, recs, skipped, usable)
+        numeric_periodic(rep, rng, thorough, skipped)
+        if usable:
+            numeric_gauge(rep, rng, thorough, wd, skipped, state)
+    finally:
+        import shutil
+        shutil.rmtree(wd, ignore_errors=True)
+    if skipped:
+        rep.part("skipped_private", **{str(k).replace(" ", "_"): v for k, v in skipped.items()})
     return rep.finish()
 
 
-def part_hk(rep, rng, thorough):
+def part_hk(rep, rng, thorough, skipped):
     maxnz, gmax = (2, 2) if thorough else (1, 2)
     cfg = f"SPECIFICATION Spec\nCONSTANTS\n  MAXNZ = {maxnz}\n  GMAX = {gmax}\nINVARIANT Periodic\nINVARIANT Hermitian\nCHECK_DEADLOCK FALSE\n"
-    st = ftable.enumerate_states("MC_PeriodicityHk.tla", cfg, "c04_hk")
+    st = ftable.enumerate_states("MC_PeriodicityHk.tla", cfg, "c04_hk" + TAG, workers=4)
     ftable.spec_violation(rep, st, "c04_hk")
     rep.add_tlc("c04_hk", st)
-    states = list(ftable.dump_states(st))
+    states = sorted(ftable.dump_states(st), key=lambda s: (repr(s["h0"]), repr(s["Ts"]), repr(s["kn"])))     # the dump order depends on the TLC workers
     if len(states) != st["distinct"]:
         raise MachineryError(f"dump has {len(states)} states, TLC reported {st['distinct']}")
     byk = {}
@@ -192,41 +255,57 @@ def part_hk(rep, rng, thorough):
     if not any(len(v) >= 4 for v in byk.values()):
         raise MachineryError("vacuous: no model whose H(k) depends on k")
     nsel = 2500 if thorough else 350
-    sel = states if len(states) <= nsel else rng.sample(states, nsel)
+    sel = states if len(states) <= nsel else sorted(rng.sample(states, nsel), key=lambda s: (repr(s["h0"]), repr(s["Ts"]), repr(s["kn"])))
     Rs = [(1, 0), (0, 1)]
-    worst = 0.0
+    worst = worst_e = 0.0
     cache = {}
+    nhk = 0
     for s in sel:
         key = (repr(s["h0"]), repr(s["Ts"]))
         if key not in cache:
             cache.clear()
-            cache[key] = model_system(2, cplx(s["h0"]), Rs, [cplx(T) for T in s["Ts"]], rng)
-        system = cache[key]
+            # centres 0: the Wannier-gauge matrix is then the same in every Fourier convention; random centres: spectrum only
+            cen = [[rng.randrange(8) / 8.0, rng.randrange(8) / 8.0, 0.0] for _ in range(2)]
+            cache[key] = (model_system(2, cplx(s["h0"]), Rs, [cplx(T) for T in s["Ts"]], np.zeros((2, 3))),
+                          model_system(2, cplx(s["h0"]), Rs, [cplx(T) for T in s["Ts"]], cen), cen)
+        system0, system1, cen = cache[key]
         kn = s["kn"]
         exp = np.array(cplx(s["hk"]))
+        expE = np.linalg.eigvalsh(exp)
         Gs = [(0, 0)] + [(rng.randint(-gmax, gmax), rng.randint(-gmax, gmax)) for _ in range(2)]
-        E0 = None
         for G in Gs:
-            d = datak(system, [kn[0] / 4.0 + G[0], kn[1] / 4.0 + G[1], 0.0])
-            got = d.HH_K[0]
-            dev = float(np.abs(got - exp).max())
-            worst = max(worst, dev)
-            rep.case(("hk", key, tuple(kn), G), nontrivial=any(any(x != (0, 0) for row in T for x in row) for T in s["Ts"]))
+            kvec = [kn[0] / 4.0 + G[0], kn[1] / 4.0 + G[1], 0.0]
             info = dict(h0=s["h0"], Rs=Rs, Ts=s["Ts"], kn=list(kn), G=list(G))
-            if dev > 1e-12:
-                rep.violation("HH_K:k_plus_G" if G != (0, 0) else "HH_K:value", dict(info, expected=s["hk"], got=str(got.tolist()), deviation=dev))
-            if E0 is None:
-                E0 = d.E_K[0]
-            elif np.abs(d.E_K[0] - E0).max() > 1e-12:
-                rep.violation("E_K:k_plus_G", dict(info, E_at_k=E0.tolist(), E_at_kG=d.E_K[0].tolist()))
-        rep.sample(dict(fn="Data_K_R.HH_K", h0=s["h0"], Ts=s["Ts"], kn=list(kn), G=[list(g) for g in Gs], hk=s["hk"]))
-    rep.part("replay_hk", states_replayed=len(sel), max_deviation=worst, tolerance=1e-12)
+            rep.case(("hk", key, tuple(kn), G), nontrivial=any(any(x != (0, 0) for row in T for x in row) for T in s["Ts"]))
+            try:
+                d0, d1 = datak(system0, kvec), datak(system1, kvec)
+                E0, E1 = np.sort(np.asarray(d0.E_K)[0]), np.sort(np.asarray(d1.E_K)[0])
+            except Exception as ex:  # noqa
+                report_raise(rep, skipped, ex, "Data_K", info)
+                continue
+            for E, which in ((E0, "centres_zero"), (E1, "random_centres")):
+                dev = float(np.abs(E - expE).max())
+                worst_e = max(worst_e, dev)
+                if dev > 1e-12:
+                    rep.violation("E_K:k_plus_G" if G != (0, 0) else "E_K:value", dict(info, centres=which if which == "centres_zero" else cen, expected_spectrum=expE.tolist(),
+                                                                                        got=E.tolist(), deviation=dev))
+            H = private(d0, "HH_K", skipped)
+            if H is not None:
+                got = np.asarray(H)[0]
+                nhk += 1
+                dev = float(np.abs(got - exp).max())
+                worst = max(worst, dev)
+                if dev > 1e-12:
+                    rep.violation("HH_K:k_plus_G" if G != (0, 0) else "HH_K:value", dict(info, centres="all zero", expected=s["hk"], got=str(got.tolist()), deviation=dev))
+        rep.sample(dict(fn="H(k) of Data_K_R (centres 0: matrix; random centres: spectrum)", h0=s["h0"], Ts=s["Ts"], kn=list(kn), G=[list(g) for g in Gs], hk=s["hk"]))
+    rep.part("replay_hk", states_enumerated=len(states), states_replayed=len(sel), matrices_compared=nhk, max_deviation=worst, max_deviation_spectrum=worst_e, tolerance=1e-12)
     # code -> spec
     recs = []
     nrec = 600 if thorough else 150
     allR = [(1, 0), (0, 1), (1, 1), (1, -1), (2, 0), (0, 2), (2, 1)]
     for _ in range(nrec):
         nw = rng.choice([2, 3])
+
         def gi():
             return [rng.randint(-2, 2), rng.randint(-2, 2)]
         h0 = [[[0, 0] for _ in range(nw)] for _ in range(nw)]
@@ -238,12 +317,19 @@ def part_hk(rep, rng, thorough):
                 h0[b][a] = [z[0], -z[1]]
         Rs2 = rng.sample(allR, rng.randint(1, 3))
         Ts2 = [[[gi() for _ in range(nw)] for _ in range(nw)] for _ in Rs2]
-        system = model_system(nw, cplx(h0), Rs2, [cplx(T) for T in Ts2], rng)
         kn = [rng.randint(0, 3), rng.randint(0, 3)]
         G = [rng.randint(-2, 2), rng.randint(-2, 2)]
-        d = datak(system, [kn[0] / 4.0 + G[0], kn[1] / 4.0 + G[1], 0.0])
         info = dict(h0=h0, Rs=[list(r) for r in Rs2], Ts=Ts2, kn=kn, G=G)
-        hk = to_gauss(d.HH_K[0], "HH_K", rep, info)
+        try:
+            system = model_system(nw, cplx(h0), Rs2, [cplx(T) for T in Ts2], np.zeros((nw, 3)))
+            d = datak(system, [kn[0] / 4.0 + G[0], kn[1] / 4.0 + G[1], 0.0])
+        except Exception as ex:  # noqa
+            report_raise(rep, skipped, ex, "Data_K", info)
+            continue
+        H = private(d, "HH_K", skipped)
+        if H is None:
+            continue
+        hk = to_gauss(np.asarray(H)[0], "HH_K", rep, info)
         if hk is None:
             continue
         recs.append(dict(fn="hk", hk=hk, **info))
@@ -251,14 +337,33 @@ def part_hk(rep, rng, thorough):
     return recs
 
 
-def part_gauge_blocks(rep, rng, thorough, gauge, recs):
+def gauge_usable(rep, skipped):
+    """the documented observable: evaluate_k with parameters_K={'random_gauge': True} must not raise"""
+    import wannierberri as wb
+    s = diag_system([0, 0, 1])
+    try:
+        with quiet():
+            wb.evaluate_k(s, k=[0.125, 0.25, 0.0], quantities=["energy", "band_gradients"], parameters_K={"random_gauge": True})
+        return True
+    except Exception as ex:  # noqa
+        site = lib_raised(ex)
+        if site is None:
+            raise
+        rep.violation("Data_K:random_gauge_raises",
+                      dict(what="evaluate_k with parameters_K={'random_gauge': True} (the documented option to test gauge covariance) raises",
+                           reproduction="wannierberri.evaluate_k(system, k=(0.125,0.25,0), quantities=['energy','band_gradients'], parameters_K={'random_gauge': True}) for a diagonal 3-band System_R",
+                           raised_in=site, error=f"{type(ex).__name__}: {ex}"[:300]))
+        return False
+
+
+def part_gauge_blocks(rep, rng, thorough, recs, skipped, usable):
     nb, emax = (6, 3) if thorough else (5, 3)
     base = f"SPECIFICATION Spec\nCONSTANTS\n  NB = {nb}\n  EMAX = {emax}\n  THS = {{0, 1, 2}}\n  RequirePrecond = %s\n" + \
         "".join(f"INVARIANT {i}\n" for i in ("Multiplets", "TraceBlocksContain", "SeaWhole", "MixSymmetric")) + "CHECK_DEADLOCK FALSE\n"
-    st = ftable.enumerate_states("MC_GaugeBlocks.tla", base % "TRUE", "c04_gauge")
+    st = ftable.enumerate_states("MC_GaugeBlocks.tla", base % "TRUE", "c04_gauge" + TAG, workers=4)
     ftable.spec_violation(rep, st, "c04_gauge")
     rep.add_tlc("c04_gauge", st)
-    s0 = tlc.run_tlc("MC_GaugeBlocks.tla", (base % "FALSE").replace(f"NB = {nb}", "NB = 4"), "c04_gauge_noprecond", timeout=900)
+    s0 = tlc.run_tlc("MC_GaugeBlocks.tla", (base % "FALSE").replace(f"NB = {nb}", "NB = 4"), "c04_gauge_noprecond" + TAG, workers=2, timeout=900)
     if not s0.get("violation") or s0["violation"][1] != "TraceBlocksContain":
         raise MachineryError("sensitivity self-test failed: without GaugeWithinTrace the containment must be violated")
     rep.part("c04_gauge_noprecond", sensitivity_violation=s0["violation"][1])
@@ -267,57 +372,114 @@ def part_gauge_blocks(rep, rng, thorough, gauge, recs):
         inputs.setdefault((tuple(s["E"]), s["thg"]), s)
     if not any(len(s["rg"]) > 0 for s in inputs.values()):
         raise MachineryError("vacuous: no state with a degenerate block")
-    gc = gauge.get(rep, diag_system([0, 0, 1]))
-    nmix = 0
-    for (E, thg), s in inputs.items():
-        exp = [[a, b] for a, b in s["rg"]]
-        groups, mixed, unit = real_degen(gc, list(E), thg)
-        rep.case(("degen", E, thg), nontrivial=len(exp) > 0)
-        if groups != exp:
-            rep.violation("Data_K.degen", dict(E=list(E), th=thg, unit=UNIT, expected=exp, got=groups, repaired_class=gauge.repaired))
-        allowed = {(m, n) for a, b in exp for m in range(a, b) for n in range(a, b)}
-        if not {tuple(p) for p in mixed} <= allowed:
-            rep.violation("Data_K.UU_K:mixes_outside_blocks", dict(E=list(E), th=thg, unit=UNIT, blocks=exp, mixed=mixed))
-        if unit > 1e-12:
-            rep.violation("Data_K.UU_K:not_unitary", dict(E=list(E), th=thg, deviation=unit))
-        if exp and not mixed:
-            rep.violation("Data_K.UU_K:random_gauge_not_applied", dict(E=list(E), th=thg, blocks=exp))
-        nmix += bool(mixed)
-    if nmix == 0:
-        raise MachineryError("vacuous: the random gauge never mixed anything")
-    rep.part("replay_gauge", inputs_replayed=len(inputs), with_mixing=nmix, random_gauge_repaired_in_harness=gauge.repaired, genuine_error=gauge.error)
-    # code -> spec
-    nrec = 600 if thorough else 150
-    for _ in range(nrec):
-        n = rng.randint(1, 10)
-        E = sorted(rng.choice([0, 0, 1, 2, 3, 5, 8]) + rng.randint(0, 3) * rng.randint(0, 3) for _ in range(n))
-        th = rng.choice([0, 1, 2, 3])
-        thc = th + rng.choice([0, 0, 1, 2])
-        groups, mixed, unit = real_degen(gc, E, th)
-        recs.append(dict(fn="degen", E=E, th=th, thc=thc, out=groups))
-        recs.append(dict(fn="uu", E=E, th=th, mixed=mixed))
-        rep.case(("degenrec", tuple(E), th))
-    stv, bad = ftable.validate_records("PeriodicityRec.tla", ftable.REC_CFG, recs, "c04")
+    state = dict(scipy_draws_seen=False)
+    if usable:
+        nmix = ndeg = nfft = 0
+        for n_, ((E, thg), s) in enumerate(sorted(inputs.items())):
+            exp = sorted((a, b) for a, b in s["rg"])
+            fft = n_ % 5 == 0                      # every fifth input on a two-point FFT grid: the blocks of every k-point
+            info = dict(E=list(E), threshold_in_units=thg + 0.5, unit=UNIT, NKFFT=[2, 1, 1] if fft else [1, 1, 1])
+            try:
+                r = real_mixing(list(E), thg, skipped, fft=fft)
+            except MachineryError:
+                raise
+            except Exception as ex:  # noqa
+                report_raise(rep, skipped, ex, "Data_K(random_gauge=True)", info)
+                continue
+            rep.case(("degen", E, thg, fft), nontrivial=len(exp) > 0)
+            nfft += fft
+            if r["draws"] > 0:
+                state["scipy_draws_seen"] = True
+            if r["groups"] is not None:
+                ndeg += 1
+                for ik, g in enumerate(r["groups"]):
+                    if g != exp:
+                        rep.violation("Data_K.degen", dict(info, ik=ik, expected_blocks=exp, got=g))
+            if r["mixed"] is None:
+                continue
+            allowed = {(m, n) for a, b in exp for m in range(a, b) for n in range(a, b)}
+            for ik, mixed in enumerate(r["mixed"]):
+                if not {tuple(p) for p in mixed} <= allowed:
+                    rep.violation("Data_K.UU_K:mixes_outside_blocks", dict(info, ik=ik, blocks=exp, mixed=mixed))
+                # every multiplet is really rotated (at every k-point of the grid)
+                for a, b in exp:
+                    if not any(a <= p[0] < b for p in mixed):
+                        rep.violation("Data_K.UU_K:random_gauge_not_applied", dict(info, ik=ik, block=[a, b], mixed=mixed))
+            if r["unit"] > 1e-12:
+                rep.violation("Data_K.UU_K:not_unitary", dict(info, deviation=r["unit"]))
+            nmix += bool(r["mixed"][0])
+        if nmix == 0 and "Data_K.UU_K" not in skipped:
+            raise MachineryError("vacuous: the random gauge never mixed anything")
+        rep.part("replay_gauge", inputs_replayed=len(inputs), with_mixing=nmix, degen_attribute_compared=ndeg, on_two_point_fft_grid=nfft,
+                 unitary_draws_counted=state["scipy_draws_seen"])
+        # code -> spec
+        nrec = 600 if thorough else 150
+        for _ in range(nrec):
+            n = rng.randint(1, 10)
+            E = sorted(rng.choice([0, 0, 1, 2, 3, 5, 8]) + rng.randint(0, 3) * rng.randint(0, 3) for _ in range(n))
+            th = rng.choice([0, 1, 2, 3])
+            thc = th + rng.choice([0, 0, 1, 2])
+            try:
+                r = real_mixing(E, th, skipped)
+            except MachineryError:
+                raise
+            except Exception as ex:  # noqa
+                report_raise(rep, skipped, ex, "Data_K(random_gauge=True)", dict(E=E, th=th))
+                continue
+            if r["groups"] is not None:
+                recs.append(dict(fn="degen", E=E, th=th, thc=thc, out=[list(g) for g in r["groups"][0]]))
+            if r["mixed"] is not None:
+                recs.append(dict(fn="uu", E=E, th=th, mixed=r["mixed"][0]))
+            rep.case(("degenrec", tuple(E), th))
+    # the corrupted records of the binding self-test ride along
+    corrupt = []
+    b1 = copy.deepcopy([r for r in recs if r["fn"] == "hk" and r["G"] != [0, 0]][:1])
+    if b1:
+        b1[0]["hk"][0][0][0] += 1
+        corrupt += b1
+    b2 = copy.deepcopy([r for r in recs if r["fn"] == "degen" and r["out"]][:1])
+    if b2:
+        b2[0]["out"] = b2[0]["out"][:-1]
+        corrupt += b2
+    corrupt.append(dict(fn="uu", E=[0, 2, 5], th=1, mixed=[[0, 2]]))
+    if not recs:
+        raise MachineryError(f"no record could be taken: {skipped}")
+    stv, bad = ftable.validate_records("PeriodicityRec.tla", ftable.REC_CFG, recs + corrupt, "c04" + TAG)
     rep.add_tlc("c04_records", stv)
     rep.add_traces(len(recs))
-    for i, clauses in bad.items():
-        r = recs[i]
-        fn = {"hk": "HH_K", "degen": "Data_K.degen", "uu": "Data_K.UU_K"}[r["fn"]]
-        rep.violation(f"{fn}:recorded:{clauses[0]}", dict(record=r, failing_clauses=clauses, unit=UNIT))
-    rep.sample([r for r in recs if r["fn"] == "degen" and r["out"]][0])
-    b1 = copy.deepcopy([r for r in recs if r["fn"] == "hk" and r["G"] != [0, 0]][:1])
-    b1[0]["hk"][0][0][0] += 1
-    b2 = copy.deepcopy([r for r in recs if r["fn"] == "degen" and r["out"]][:1])
-    b2[0]["out"] = b2[0]["out"][:-1]
-    b3 = [dict(fn="uu", E=[0, 2, 5], th=1, mixed=[[0, 2]])]
-    _, bb = ftable.validate_records("PeriodicityRec.tla", ftable.REC_CFG, b1 + b2 + b3, "c04_selftest")
-    if set(bb) != {0, 1, 2}:
-        raise MachineryError(f"binding self-test failed: corrupted records accepted ({bb})")
-    rep.part("binding_selftest", corrupted_records_rejected={str(k): v for k, v in bb.items()})
+    for i, clauses in sorted(bad.items()):
+        if i < len(recs):
+            r = recs[i]
+            fn = {"hk": "HH_K", "degen": "Data_K.degen", "uu": "Data_K.UU_K"}[r["fn"]]
+            rep.violation(f"{fn}:recorded:{clauses[0]}", dict(record=r, failing_clauses=clauses, unit=UNIT))
+    smp = [r for r in recs if r["fn"] == "degen" and r["out"]]
+    if smp:
+        rep.sample(smp[0])
+    if not all(len(recs) + n in bad for n in range(len(corrupt))):
+        raise MachineryError(f"binding self-test failed: corrupted records accepted ({ {k: v for k, v in bad.items() if k >= len(recs)} })")
+    rep.part("binding_selftest", corrupted_records_rejected={str(k - len(recs)): v for k, v in bad.items() if k >= len(recs)})
+    return state
 
 
 # ------------------------------------------------------------------------------------------------ numeric parts
-def numeric_periodic(rep, rng, thorough):
+def _arr(v):
+    return v if isinstance(v, np.ndarray) else np.asarray(v.data[0] if hasattr(v, "data") else v)
+
+
+def compare_kG(rep, worst, tag, info, r0, r1, key_of):
+    n = 0
+    for q in r0:
+        scale = max(1.0, float(np.abs(r0[q]).max()))
+        dev = float(np.abs(r0[q] - r1[q]).max())
+        worst[q] = max(worst.get(q, 0.0), dev / scale)
+        n += 1
+        rep.case(key_of(q), nontrivial=np.abs(r0[q]).max() > 1e-6)
+        if dev > TOL * scale:
+            rep.violation(f"{tag}:{q}", dict(info, at_k=np.asarray(r0[q]).tolist(), at_kG=np.asarray(r1[q]).tolist(), deviation=dev))
+    return n
+
+
+def numeric_periodic(rep, rng, thorough, skipped):
     import wannierberri as wb
     from wannierberri import calculators as calc
     from . import kmodels as km
@@ -344,34 +506,145 @@ def numeric_periodic(rep, rng, thorough):
             if km.min_gap(m, k) < MINGAP:
                 continue
             done += 1
-            with quiet():
-                r0 = wb.evaluate_k(s, k=k, quantities=quantities, calculators=calcs(), return_single_as_dict=True)
-            r0 = {q: (v if isinstance(v, np.ndarray) else v.data[0]) for q, v in r0.items()}
+            info = dict(model=m.dump(), k=k.tolist())
+            try:
+                with quiet():
+                    r0 = wb.evaluate_k(s, k=k, quantities=quantities, calculators=calcs(), return_single_as_dict=True)
+                r0 = {q: _arr(v) for q, v in r0.items()}
+            except Exception as ex:  # noqa
+                report_raise(rep, skipped, ex, "evaluate_k", info)
+                continue
             for _g in range(3 if thorough else 2):
                 G = np.array([r.randint(-2, 3) for _ in range(3)])
                 if not G.any():
                     G[0] = 2
-                with quiet():
-                    r1 = wb.evaluate_k(s, k=k + G, quantities=quantities, calculators=calcs(), return_single_as_dict=True)
-                r1 = {q: (v if isinstance(v, np.ndarray) else v.data[0]) for q, v in r1.items()}
+                try:
+                    with quiet():
+                        r1 = wb.evaluate_k(s, k=k + G, quantities=quantities, calculators=calcs(), return_single_as_dict=True)
+                    r1 = {q: _arr(v) for q, v in r1.items()}
+                except Exception as ex:  # noqa
+                    report_raise(rep, skipped, ex, "evaluate_k", dict(info, G=G.tolist()))
+                    continue
+                ncase += compare_kG(rep, worst, "evaluate_k:k_plus_G", dict(info, G=G.tolist()), r0, r1, lambda q: ("kG", m.meta["seed"], tuple(k), tuple(G), q))
                 for q in r0:
-                    scale = max(1.0, float(np.abs(r0[q]).max()))
-                    dev = float(np.abs(r0[q] - r1[q]).max())
-                    worst[q] = max(worst.get(q, 0.0), dev / scale)
-                    ncase += 1
-                    rep.case(("kG", m.meta["seed"], tuple(k), tuple(G), q), nontrivial=np.abs(r0[q]).max() > 1e-6)
-                    if dev > TOL * scale:
-                        rep.violation(f"evaluate_k:k_plus_G:{q}", dict(model=m.dump(), k=k.tolist(), G=G.tolist(), at_k=r0[q].tolist(), at_kG=r1[q].tolist(), deviation=dev))
                     if q != "energy" and q != "spin" and np.abs(r0[q]).max() < 1e-9:
                         raise MachineryError(f"vacuous: {q} vanishes on a random model")
         if done < nk:
             raise MachineryError("no non-degenerate k-point")
+        # the FFT path: tabulators and integrators called on a 2x2x1 Data_K at dK and at dK + G
+        if im == 0 or thorough:
+            ncase += fft_periodic(rep, rng, r, m, s, spinful, worst, skipped)
+    # a SystemSOC (two spin channels with different R-vector sets + SOC term)
+    ncase += soc_periodic(rep, rng, thorough, worst, skipped)
     rep.part("numeric_only", k_plus_G_cases=ncase, k_plus_G_max_rel_dev=worst, tolerance=TOL)
 
 
-def degenerate_system(rng, nw=3, dim=2):
-    """doubled-spin system (exact two-fold degeneracy at every k) with external-term matrices and a random Hermitian 'SS'
-    that is NOT block diagonal (so that spin traces over the degenerate pairs are non-trivial)"""
+def fft_periodic(rep, rng, r, m, s, spinful, worst, skipped):
+    from wannierberri import calculators as calc
+    from . import kmodels as km
+    nz = [2, 2, 1] if m.meta["dim"] == 2 else [2, 2, 2]
+    for _ in range(40):
+        k0 = km.generic_k(r, dim=m.meta["dim"]) / np.array(nz)
+        pts = [k0 + np.array([i, j, l]) / np.array(nz) for i in range(nz[0]) for j in range(nz[1]) for l in range(nz[2])]
+        if min(km.min_gap(m, p) for p in pts) >= MINGAP:
+            break
+    else:
+        raise MachineryError("no non-degenerate FFT grid")
+    E = np.concatenate([np.linalg.eigvalsh(m.Hk(p)) for p in pts])
+    Ef = np.linspace(float(E.min()) - 0.2, float(E.max()) + 0.2, 5)
+    G = np.array([r.randint(-2, 3) for _ in range(3)])
+    if not G.any():
+        G[1] = -1
+    info = dict(model=m.dump(), dK=k0.tolist(), NKFFT=nz, G=G.tolist())
+
+    def evaluate(dK):
+        d = datak(s, dK, NKFFT=nz)
+        cs = {"tab_energy": calc.tabulate.Energy(), "tab_berry": calc.tabulate.BerryCurvature(), "tab_morb": calc.tabulate.OrbitalMoment(),
+              "tab_velocity": calc.tabulate.Velocity(), "ahc": calc.static.AHC(Efermi=Ef), "dos": calc.static.DOS(Efermi=Ef), "morb": calc.static.Morb(Efermi=Ef)}
+        if spinful:
+            cs["tab_spin"] = calc.tabulate.Spin()
+        out = {}
+        with quiet():
+            for n, c in cs.items():
+                out["fft_grid:" + n] = np.asarray(c(d).data)
+        return out
+    try:
+        r0, r1 = evaluate(k0), evaluate(k0 + G)
+    except Exception as ex:  # noqa
+        report_raise(rep, skipped, ex, "calculators_on_fft_grid", info)
+        return 0
+    if np.abs(r0["fft_grid:tab_berry"]).max() < 1e-9:
+        raise MachineryError("vacuous: Berry curvature vanishes on the FFT grid")
+    return compare_kG(rep, worst, "Data_K:k_plus_G", info, r0, r1, lambda q: ("kG_fft", m.meta["seed"], tuple(k0), tuple(G), q))
+
+
+def soc_periodic(rep, rng, thorough, worst, skipped):
+    import wannierberri as wb
+    try:
+        from ._ksym import random_system_soc
+        r = np.random.RandomState(rng.randrange(1 << 30))
+        soc = random_system_soc(r, nw=2)
+    except Exception as ex:  # noqa   harness-side construction through non-public names
+        if lib_raised(ex) is not None:
+            report_raise(rep, skipped, ex, "SystemSOC", {})
+        else:
+            skipped["SystemSOC"] = f"{type(ex).__name__}: {ex}"[:200]
+        return 0
+    if soc is None:
+        skipped["SystemSOC"] = "cannot be assembled through the non-public names any more"
+        return 0
+    quantities = ["energy", "band_gradients", "berry_curvature"]
+    n = done = 0
+    for _ in range(40):
+        if done >= (3 if thorough else 1):
+            break
+        k = (r.randint(1, 32, size=3) * 2 + 1) / 64.0
+        info = dict(system="SystemSOC(up, down) with random SOC term", k=k.tolist())
+        try:
+            with quiet():
+                r0 = {q: _arr(v) for q, v in wb.evaluate_k(soc, k=k, quantities=quantities, return_single_as_dict=True).items()}
+            if np.min(np.diff(np.sort(r0["energy"].reshape(-1)))) < MINGAP:
+                continue
+            done += 1
+            G = np.array([r.randint(-2, 3) for _ in range(3)])
+            if not G.any():
+                G[2] = 1
+            with quiet():
+                r1 = {q: _arr(v) for q, v in wb.evaluate_k(soc, k=k + G, quantities=quantities, return_single_as_dict=True).items()}
+        except Exception as ex:  # noqa
+            report_raise(rep, skipped, ex, "evaluate_k:SystemSOC", info)
+            return n
+        r0 = {"soc:" + q: v for q, v in r0.items()}
+        r1 = {"soc:" + q: v for q, v in r1.items()}
+        n += compare_kG(rep, worst, "evaluate_k:k_plus_G", dict(info, G=G.tolist()), r0, r1, lambda q: ("kG_soc", tuple(k), tuple(G), q))
+    return n
+
+
+def multiplet_system(rng, fold=2, nw=3, dim=2, split=0.0):
+    """system with an exact `fold`-fold degeneracy at every k: Ham = H0 (x) 1_fold [+ split * 1 (x) diag(0..fold-1)], with random
+    Hermitian external-term matrices and a random Hermitian 'SS' that are NOT block diagonal (so that traces over the
+    multiplets are non-trivial).  -> (model of H0, system, blocks)"""
+    from . import kmodels as km
+    m = km.build(rng.randrange(1 << 30), nw=nw, dim=dim, keys=("Ham",))
+    big = km.build(rng.randrange(1 << 30), nw=fold * nw, dim=dim, keys=("Ham", "AA", "BB", "CC", "FF", "SS"), centres="zero")
+    s = big.system()
+    n = fold * nw
+    H = np.zeros((s.rvec.nRvec, n, n), dtype=complex)
+    for R, M in m.mats["Ham"].items():
+        try:
+            iR = s.rvec.iR(R)
+        except Exception as ex:  # noqa
+            raise MachineryError(f"R-vector {R} of the small model is missing in the big one: {ex}")
+        H[iR] = np.kron(np.asarray(M), np.eye(fold))
+    if split:
+        H[s.rvec.iR((0, 0, 0))] += split * np.kron(np.eye(nw), np.diag(np.arange(fold, dtype=float)))
+    s.set_R_mat("Ham", H, reset=True)
+    return m, s, [(fold * j, fold * j + fold) for j in range(nw)]
+
+
+def spin_copies_system(rng, nw=3, dim=2):
+    """doubled-spin system (two identical copies: the external-term matrices are block diagonal in the copies) with a random
+    Hermitian 'SS' that is NOT block diagonal.  -> (model, system, blocks)"""
     from . import kmodels as km
     m = km.build(rng.randrange(1 << 30), nw=nw, dim=dim, keys=("Ham", "AA", "BB", "CC", "FF"))
     s = m.system()
@@ -382,30 +655,63 @@ def degenerate_system(rng, nw=3, dim=2):
     for R, M in ms.mats["SS"].items():
         try:
             SS[s.rvec.iR(R)] = M
-        except Exception:
+        except Exception:  # noqa
             pass
-    # keep it Hermitian on the R-set of the system
-    SS = 0.5 * (SS + s.rvec.conj_XX_R(SS))
+    SS = 0.5 * (SS + s.rvec.conj_XX_R(SS))          # keep it Hermitian on the R-set of the system
     s.set_R_mat("SS", SS, reset=True)
-    return m, s
+    return m, s, [(2 * j, 2 * j + 2) for j in range(nw)]
 
 
-def numeric_gauge(rep, rng, thorough, gauge, wd):
+def multiplet_groups(nb, blocks):
+    gs = [("multiplet", np.arange(a, b)) for a, b in blocks]
+    gs.append(("sea", np.arange(0, blocks[0][1])))
+    if len(blocks) > 2:
+        gs.append(("sea", np.arange(0, blocks[1][1])))
+    return gs
+
+
+def multiplet_values(entry, obj, nb, blocks):
+    """traces over whole multiplets / seas of multiplets -> list of (label, array with a leading axis of length 1)"""
+    out = []
+    allb = np.arange(nb)
+    gs = multiplet_groups(nb, blocks)
+    if entry["kind"] == "ln":
+        for lab, inn in gs:
+            v = obj.trace(0, inn, np.setdiff1d(allb, inn))
+            out.append((f"{lab}{inn.tolist()}", np.array(v, dtype=float).reshape((1,) + np.shape(v))))
+    else:
+        base = [g for g in gs if g[0] == "multiplet"]
+        for l1, i1 in base:
+            for l2, i2 in base:
+                v = obj.trace_ln(0, i1, i2)
+                out.append((f"{l1}{i1.tolist()}x{i2.tolist()}", np.array(v).reshape((1,) + np.shape(v))))
+    return out
+
+
+def numeric_gauge(rep, rng, thorough, wd, skipped, state):
     import wannierberri as wb
     from wannierberri import calculators as calc
     from . import kmodels as km
-    from .c08 import registry, values, variant_tag
-    nmod = 4 if thorough else 1
+    from .c08 import registry, variant_tag
     nk = 3 if thorough else 1
     worst = 0.0
     ncase = 0
+    counted = dict(evaluate_k=None, run=None)
     reg = [e for e in registry() if not e["label"].startswith(("SpinVelocity(ryoo", "SpinVelocity(qiao", "SpinOmega(ryoo", "SpinOmega(qiao", "Formula_SHC(ryoo", "Formula_SHC(qiao"))]
-    for im in range(nmod):
-        m, s = degenerate_system(rng)
-        gc = gauge.get(rep, s)
+    # (label, multiplicity, orbitals of H0, splitting inside the multiplets, with run()?)
+    kinds = [("spin_copies", 2, 3, 0.0, True), ("twofold", 2, 2, 0.0, False), ("threefold", 3, 2, 0.0, False), ("near_degenerate", 2, 2, SPLIT, False)]
+    if thorough:
+        kinds = kinds + [("spin_copies", 2, 3, 0.0, True), ("twofold", 2, 3, 0.0, True), ("spin_copies", 2, 2, 0.0, True), ("near_degenerate", 2, 3, SPLIT, False)]
+    candidate = {}
+    for label, fold, nw, split, with_run in kinds:
+        if label == "spin_copies":
+            m, s, blocks = spin_copies_system(rng, nw=nw)
+        else:
+            m, s, blocks = multiplet_system(rng, fold=fold, nw=nw, split=split)
         nb = s.num_wann
         r = np.random.RandomState(rng.randrange(1 << 30))
         done = 0
+        sysinfo = dict(kind=label, multiplicity=fold, splitting=split, model=m.dump())
         for _ in range(40):
             if done >= nk:
                 break
@@ -413,31 +719,91 @@ def numeric_gauge(rep, rng, thorough, gauge, wd):
             if km.min_gap(m, k) < MINGAP:    # gaps between different multiplets
                 continue
             done += 1
+            info = dict(sysinfo, k=k.tolist())
             np.random.seed(rng.randrange(1 << 30))
-            d0 = datak(s, k, cls=gc, random_gauge=False)
-            d1 = datak(s, k, cls=gc, random_gauge=True)
-            if np.abs(d0.UU_K - d1.UU_K).max() < 1e-3:
-                raise MachineryError("vacuous: random gauge did not change the eigenvectors")
-            if [tuple(int(x) for x in g) for g in d1.degen[0]] != [(2 * j, 2 * j + 2) for j in range(nb // 2)]:
-                raise MachineryError(f"unexpected degenerate blocks {d1.degen[0]}")
-            # (1) traces of every calculator formula over the degenerate pairs / sea blocks
+            try:
+                d0 = datak(s, k, random_gauge=False)
+            except Exception as ex:  # noqa
+                raise MachineryError(f"cannot build the reference Data_K: {ex}")
+            try:
+                with Draws() as dr:
+                    d1 = datak(s, k, random_gauge=True)
+                    U1 = private(d1, "UU_K", skipped)
+            except Exception as ex:  # noqa
+                report_raise(rep, skipped, ex, "Data_K(random_gauge=True)", info)
+                continue
+            U0 = private(d0, "UU_K", skipped)
+            if U0 is not None and U1 is not None and np.abs(np.asarray(U0) - np.asarray(U1)).max() < 1e-3:
+                rep.violation("random_gauge:not_applied:Data_K", dict(info, note="eigenvectors with random_gauge=True equal those with random_gauge=False on a model whose bands are all degenerate"))
+                continue
+            if U0 is None and state["scipy_draws_seen"] and dr.n == 0:
+                rep.violation("random_gauge:not_applied:Data_K", dict(info, note="no unitary was drawn"))
+                continue
+            # (1) traces of every calculator formula over the multiplets / sea blocks
             for e in reg:
                 try:
                     with quiet():
-                        o0, o1 = e["make"](d0), e["make"](d1)
-                        vals0, vals1 = values(e, o0, nb, True), values(e, o1, nb, True)
-                except Exception as ex:
-                    raise MachineryError(f"cannot build {e['label']}: {ex}")
+                        o0 = e["make"](d0)
+                        vals0 = multiplet_values(e, o0, nb, blocks)
+                except Exception as ex:  # noqa   the reference gauge: nothing to compare with
+                    if lib_raised(ex) is None:
+                        skipped["formula:" + e["label"]] = f"{type(ex).__name__}: {ex}"[:200]
+                        continue
+                    raise MachineryError(f"cannot build {e['label']} in the reference gauge: {ex}")
+                try:
+                    with quiet():
+                        o1 = e["make"](d1)
+                        vals1 = multiplet_values(e, o1, nb, blocks)
+                except Exception as ex:  # noqa   raises only in the random gauge
+                    site = lib_raised(ex)
+                    if site is None:
+                        raise
+                    rep.violation(f"random_gauge:formula_raises:{e['name']}{variant_tag(e)}",
+                                  dict(info, formula=e["label"], raised_in=site, error=f"{type(ex).__name__}: {ex}"[:300], note="the same formula is fine with random_gauge=False"))
+                    continue
                 for (lab, v0), (_, v1) in zip(vals0, vals1):
                     scale = max(1.0, float(np.abs(v0).max()))
                     dev = float(np.abs(v0 - v1).max())
-                    worst = max(worst, dev / scale)
                     ncase += 1
-                    rep.case(("gauge_formula", e["label"], m.meta["seed"], tuple(k), lab), nontrivial=np.abs(v0).max() > 1e-6)
-                    if dev > TOL * scale:
+                    rep.case(("gauge_formula", label, e["label"], m.meta["seed"], tuple(k), lab), nontrivial=np.abs(v0).max() > 1e-6)
+                    if not (label != "spin_copies" and e["name"] in ABELIAN_FORMULAS):
+                        worst = max(worst, dev / scale)
+                    if dev > TOL * scale and label != "spin_copies" and e["name"] in ABELIAN_FORMULAS:
+                        c = candidate.setdefault(e["label"], dict(max_relative_deviation=0.0, systems=[]))
+                        c["max_relative_deviation"] = max(c["max_relative_deviation"], dev / scale)
+                        if label not in c["systems"]:
+                            c["systems"].append(label)
+                    elif dev > TOL * scale:
                         rep.violation(f"random_gauge:formula:{e['name']}{variant_tag(e)}",
-                                      dict(formula=e["label"], model=m.dump(), k=k.tolist(), group=lab, fixed_gauge=str(np.array(v0)[0].tolist()),
-                                           random_gauge=str(np.array(v1)[0].tolist()), deviation=dev, repaired_class=gauge.repaired))
+                                      dict(info, formula=e["label"], group=lab, fixed_gauge=str(np.array(v0)[0].tolist()),
+                                           random_gauge=str(np.array(v1)[0].tolist()), deviation=dev))
+            # (1b) integrators on the Data_K objects with Fermi levels INSIDE the multiplets (and between them)
+            Ek = np.sort(np.asarray(d0.E_K)[0])
+            Ef = np.sort(np.concatenate([[0.5 * (Ek[a] + Ek[b - 1]) for a, b in blocks], [0.5 * (Ek[b - 1] + Ek[b]) for a, b in blocks[:-1]]]))
+            ics = {"AHC": lambda: calc.static.AHC(Efermi=Ef), "DOS": lambda: calc.static.DOS(Efermi=Ef), "Morb": lambda: calc.static.Morb(Efermi=Ef),
+                   "Spin": lambda: calc.static.Spin(Efermi=Ef), "Ohmic_FermiSea": lambda: calc.static.Ohmic_FermiSea(Efermi=Ef)}
+            for cn, mk in ics.items():
+                try:
+                    with quiet():
+                        a = np.asarray(mk()(d0).data)
+                except Exception as ex:  # noqa
+                    if lib_raised(ex) is None:
+                        skipped["integrator:" + cn] = f"{type(ex).__name__}: {ex}"[:200]
+                        continue
+                    raise MachineryError(f"integrator {cn} fails in the reference gauge: {ex}")
+                try:
+                    with quiet():
+                        b = np.asarray(mk()(d1).data)
+                except Exception as ex:  # noqa
+                    report_raise(rep, skipped, ex, f"random_gauge:integrator:{cn}", info)
+                    continue
+                scale = max(1.0, float(np.abs(a).max()))
+                dev = float(np.abs(a - b).max())
+                worst = max(worst, dev / scale)
+                ncase += 1
+                rep.case(("gauge_fermi_in_multiplet", label, cn, m.meta["seed"], tuple(k)), nontrivial=np.abs(a).max() > 1e-9)
+                if dev > TOL * scale:
+                    rep.violation(f"random_gauge:fermi_level_in_multiplet:{cn}", dict(info, Efermi=Ef.tolist(), fixed_gauge=a.tolist(), random_gauge=b.tolist(), deviation=dev))
             # (2) evaluate_k tabulations
             quantities = ["energy", "band_gradients", "berry_curvature", "berry_curvature_internal_terms", "berry_curvature_external_terms", "spin"]
 
@@ -445,22 +811,32 @@ def numeric_gauge(rep, rng, thorough, gauge, wd):
                 return {"morb": calc.tabulate.OrbitalMoment(), "der_berry": calc.tabulate.DerBerryCurvature(), "der_spin": calc.tabulate.DerSpin(),
                         "der3E": calc.tabulate.Der3E(), "der_morb": calc.tabulate.DerOrbitalMoment()}
             res = []
-            for rg in (False, True):
-                np.random.seed(rng.randrange(1 << 30))
-                with quiet():
-                    x = wb.evaluate_k(s, k=k, quantities=quantities, calculators=calcs(), return_single_as_dict=True,
-                                      parameters_K={"random_gauge": rg}, data_k_class=gc)
-                res.append({q: (v if isinstance(v, np.ndarray) else v.data[0]) for q, v in x.items()})
+            try:
+                for rg in (False, True):
+                    np.random.seed(rng.randrange(1 << 30))
+                    with quiet(), Draws() as dr:
+                        x = wb.evaluate_k(s, k=k, quantities=quantities, calculators=calcs(), return_single_as_dict=True, parameters_K={"random_gauge": rg})
+                    res.append({q: _arr(v) for q, v in x.items()})
+                    if rg:
+                        counted["evaluate_k"] = dr.n
+            except Exception as ex:  # noqa
+                report_raise(rep, skipped, ex, "random_gauge:evaluate_k", info)
+                continue
+            if state["scipy_draws_seen"] and dr.n < len(blocks):
+                rep.violation("random_gauge:not_applied:evaluate_k", dict(info, multiplets=len(blocks), unitary_draws=dr.n,
+                                                                         note="evaluate_k(..., parameters_K={'random_gauge': True}) did not rotate every multiplet"))
             for q in res[0]:
                 scale = max(1.0, float(np.abs(res[0][q]).max()))
                 dev = float(np.abs(res[0][q] - res[1][q]).max())
                 worst = max(worst, dev / scale)
                 ncase += 1
-                rep.case(("gauge_evalk", q, m.meta["seed"], tuple(k)), nontrivial=np.abs(res[0][q]).max() > 1e-6)
+                rep.case(("gauge_evalk", label, q, m.meta["seed"], tuple(k)), nontrivial=np.abs(res[0][q]).max() > 1e-6)
                 if dev > TOL * scale:
-                    rep.violation(f"random_gauge:evaluate_k:{q}", dict(model=m.dump(), k=k.tolist(), fixed_gauge=res[0][q].tolist(), random_gauge=res[1][q].tolist(), deviation=dev))
+                    rep.violation(f"random_gauge:evaluate_k:{q}", dict(info, fixed_gauge=res[0][q].tolist(), random_gauge=res[1][q].tolist(), deviation=dev))
         if done < nk:
             raise MachineryError("no suitable k-point")
+        if not with_run:
+            continue
         # (3) run(): integrated and tabulated
         Es = np.concatenate([np.linalg.eigvalsh(m.Hk(np.array([i, j, 0]) / 4.0)) for i in range(4) for j in range(4)])
         Ef = np.linspace(float(Es.min()) - 0.3, float(Es.max()) + 0.3, 7)
@@ -471,17 +847,27 @@ def numeric_gauge(rep, rng, thorough, gauge, wd):
             return {"ahc": calc.static.AHC(**kw), "dos": calc.static.DOS(**kw), "spin": calc.static.Spin(**kw), "morb": calc.static.Morb(**kw),
                     "ohmic": calc.static.Ohmic_FermiSea(**kw), "berry_dipole": calc.static.BerryDipole_FermiSea(**kw),
                     "gme_spin": calc.static.GME_spin_FermiSurf(**kw),
+                    "ahc_tetra": calc.static.AHC(tetra=True, **kw), "dos_tetra": calc.static.DOS(tetra=True, **kw),
                     "opt": calc.dynamic.OpticalConductivity(Efermi=Ef[2:5], omega=omega, smr_fixed_width=0.2, save_mode=""),
                     "tab": calc.TabulatorAll({"Energy": calc.tabulate.Energy(), "berry": calc.tabulate.BerryCurvature(), "spin": calc.tabulate.Spin(),
                                               "morb": calc.tabulate.OrbitalMoment()}, mode="grid", save_mode="")}
         out = []
-        for rg in (False, True):
-            np.random.seed(rng.randrange(1 << 30))
-            with quiet():
-                grid = wb.Grid(s, NK=[4, 4, 1], NKFFT=[2, 2, 1])
-                out.append(wb.run(s, grid, icalcs(), parallel=False, adpt_num_iter=0, use_irred_kpt=False, symmetrize=False, fout_name=f"{wd}/run",
-                                  parameters_K={"random_gauge": rg}, data_k_class=gc, print_progress_step_time=1e9))
-        for key in ("ahc", "dos", "spin", "morb", "ohmic", "berry_dipole", "gme_spin", "opt"):
+        try:
+            for rg in (False, True):
+                np.random.seed(rng.randrange(1 << 30))
+                with quiet(), Draws() as dr:
+                    grid = wb.Grid(s, NK=[4, 4, 1], NKFFT=[2, 2, 1])
+                    out.append(wb.run(s, grid, icalcs(), parallel=False, adpt_num_iter=0, use_irred_kpt=False, symmetrize=False, fout_name=f"{wd}/run",
+                                      parameters_K={"random_gauge": rg}, print_progress_step_time=1e9))
+                if rg:
+                    counted["run"] = dr.n
+        except Exception as ex:  # noqa
+            report_raise(rep, skipped, ex, "random_gauge:run", sysinfo)
+            continue
+        if state["scipy_draws_seen"] and dr.n < 16 * len(blocks):
+            rep.violation("random_gauge:not_applied:run", dict(sysinfo, k_points=16, multiplets=len(blocks), unitary_draws=dr.n,
+                                                              note="run(..., parameters_K={'random_gauge': True}) did not rotate every multiplet at every k-point"))
+        for key in ("ahc", "dos", "spin", "morb", "ohmic", "berry_dipole", "gme_spin", "ahc_tetra", "dos_tetra", "opt"):
             a, b = out[0].results[key].data, out[1].results[key].data
             scale = max(1.0, float(np.abs(a).max()))
             dev = float(np.abs(a - b).max())
@@ -489,7 +875,7 @@ def numeric_gauge(rep, rng, thorough, gauge, wd):
             ncase += 1
             rep.case(("gauge_run", key, m.meta["seed"]), nontrivial=np.abs(a).max() > 1e-9)
             if dev > TOL * scale:
-                rep.violation(f"random_gauge:run:{key}", dict(model=m.dump(), Efermi=Ef.tolist(), deviation=dev, scale=scale, repaired_class=gauge.repaired))
+                rep.violation(f"random_gauge:run:{key}", dict(sysinfo, Efermi=Ef.tolist(), deviation=dev, scale=scale))
         t0, t1 = out[0].results["tab"], out[1].results["tab"]
         for q in ("Energy", "berry", "spin", "morb"):
             a = t0.get_data(quantity=q, iband=list(range(nb)))
@@ -500,5 +886,11 @@ def numeric_gauge(rep, rng, thorough, gauge, wd):
             ncase += 1
             rep.case(("gauge_run_tab", q, m.meta["seed"]), nontrivial=np.abs(a).max() > 1e-9)
             if dev > TOL * scale:
-                rep.violation(f"random_gauge:run:tabulate:{q}", dict(model=m.dump(), deviation=dev, scale=scale))
-    rep.part("numeric_only", gauge_cases=ncase, gauge_max_rel_dev=worst, random_gauge_repaired_in_harness=gauge.repaired)
+                rep.violation(f"random_gauge:run:tabulate:{q}", dict(sysinfo, deviation=dev, scale=scale))
+    if not state["scipy_draws_seen"]:
+        skipped["unitary_draw_count"] = "scipy.stats.unitary_group.rvs is not what draws the random gauge (any more): application inside evaluate_k / run() not verified"
+    if candidate:
+        rep.part("candidate_finding_not_gauge_covariant", note="formulas built from band-diagonal elements (V_nn, A_nn): invariant only when the connection inside a degenerate multiplet "
+                 "vanishes (spin copies); on multiplets with a non-trivial intra-multiplet connection they depend on the random gauge. Listed in ABELIAN_FORMULAS, not reported as violation",
+                 **candidate)
+    rep.part("numeric_only", gauge_cases=ncase, gauge_max_rel_dev=worst, unitary_draws=counted, systems=[k_[0] for k_ in kinds])
